@@ -1177,6 +1177,105 @@ def replay_param_files(a):
         shutil.rmtree(d, ignore_errors=True)
 
 
+def data_input_params_wiring(a):
+    """plain validate WITH input parameters: every document is merged with a fresh copy of the parameters"""
+    df = struct_fields(a.src, "commands/validate.rs", "DataFile")
+    holder = {}
+
+    def prep(ex):
+        extra = ex.opq()
+        holder["extra"] = extra
+        return {"_7": ("bool", "false"), "_8": ("bool", "false"), "_3": ("enum", "Option", "1", {"Some": extra})}
+    ex = a.exec(r"(?:commands::validate::)?evaluate_against_data_input",
+                {"root_scope": m_scope, "eval_rules_file": mirexec.m_result_status, "is_empty": lambda ex, av: ("bool", "true"),
+                 "report_eval": mirexec.m_result_unit, "next": mirexec.m_iter_next, "into_iter": mirexec.m_new_iter,
+                 "iter": mirexec.m_new_iter, RC_NEW: mirexec.m_identity, "from": lambda ex, av: ex.opq(), "merge": m_result_opq},
+                unroll=2, max_paths=40000, prep=prep)
+    a.fns.append("commands::validate::evaluate_against_data_input (with input parameters)")
+    rules, files, extra = ex.arg_env["_5"], ex.arg_env["_4"], holder["extra"]
+    bad, n = [], 0
+    for p in ex.paths:
+        its = iterations(ex, p, it_filter=lambda ev: ex.iter_src.get(ev[2][0][1], ev[2][0]) == files)
+        bounds = [i for _k, _e, _t, i in its] + [len(p.events)]
+        probs = []
+        for j, (k, el, tag, i0) in enumerate(its):
+            seg = [e for i, e in enumerate(p.events) if bounds[j] <= i < bounds[j + 1] and e[0] == "call"]
+            mg = [e for e in seg if e[1] == "merge"]
+            sc = [e for e in seg if e[1] == "root_scope"]
+            if not mg and not sc:
+                continue
+            n += 1
+            pv = field(ex, el, df.index("path_value"), "PathAwareValue") if el is not None and el[0] == "opaque" else None
+            if not (len(mg) == 1 and same(mg[0][2][0], extra) and same(mg[0][2][1], pv)):
+                probs.append("a document is not merged as (copy of the parameters).merge(this document)")
+            elif sc and not (len(sc) == 1 and same(sc[0][2][0], rules) and same(sc[0][2][1], mg[0][3][3]["Ok"])):
+                probs.append("the scope is not built from the merged document of this iteration")
+        bad.append(pc_term(p.pc) if probs else "false")
+    c = a.discharge("evaluate_against_data_input/parameters-merged-per-document", ex, bad,
+                    f"plain validate with input parameters, <= 2 documents ({n} merges): each document is merged with the ORIGINAL "
+                    "parameters (never with the result of an earlier merge) and its scope is built from exactly that merged value",
+                    witness=False)
+    if c:
+        c["replay"] = replay_param_conflict(a)
+        c["reproduced"] = c["replay"].get("reproduced", False)
+        a.candidates.append(c)
+
+
+def structured_merge_closure(a):
+    """--structured: the closure that merges the parameters into each document"""
+    df = struct_fields(a.src, "commands/validate.rs", "DataFile")
+    SE = struct_fields(a.src, "commands/reporters/validate/structured.rs", "StructuredEvaluator")
+    pat = r"reporters::validate::structured::<impl at guard/src/commands/reporters/validate/structured\.rs:\d+:\d+: \d+:\d+>::evaluate::\{closure#(\d+)\}"
+    found = None
+    for m in re.finditer(r"^fn (" + pat + r")\(", a.mir, re.M):
+        text = mirsmt.find_fn(a.mir, re.escape(m.group(1)))
+        if re.search(r"::merge\(", text):
+            found = m.group(1)
+    if not found:
+        a.ob.items.append({"obligation": "structured/merge-closure", "describe": "no closure of StructuredEvaluator::evaluate calls merge",
+                           "verdicts": {}, "status": "inconclusive", "model": None})
+        return
+    ex = a.exec(re.escape(found), {"merge": m_result_opq, "to_owned": mirexec.m_identity, "default": lambda ex, av: ex.opq()},
+                log=("push",), unroll=1, max_paths=2000)
+    a.fns.append("commands::reporters::validate::structured::StructuredEvaluator::evaluate::{closure} (parameter merge, wiring)")
+    envv, acc, file_ = ex.arg_env["_1"], ex.arg_env["_2"], ex.arg_env["_3"]
+    bad = []
+    for p in ex.paths:
+        if p.outcome != "return":
+            continue
+        mg = calls(p, "merge")
+        pushes = [e for e in calls(p, "push") if len(e[2]) == 2]
+        pv = field(ex, file_, df.index("path_value"), "PathAwareValue")
+        probs = []
+        r = p.ret
+        errored = bool(mg) and r is not None and r[0] == "enum" and r[1] == "Result"
+        if mg:
+            # receiver: the evaluator's own parameters (through the captured self), argument: this document
+            recv_ok = False
+            i = mg[0][2][0][1] if mg[0][2][0][0] == "opaque" else None
+            for _d in range(12):
+                if i is None:
+                    break
+                if i == envv[1]:
+                    recv_ok = True
+                    break
+                i = next((k[0] for k, v in ex.proj.items() if isinstance(k, tuple) and len(k) == 2 and isinstance(k[0], int) and v == ("opaque", i)), None)
+            if not (len(mg) == 1 and recv_ok and same(mg[0][2][1], pv)):
+                probs.append("merge is not (copy of the evaluator's parameters).merge(this document)")
+        if len(pushes) == 1:
+            d_ = pushes[0][2][1]
+            want = mg[0][3][3]["Ok"] if mg else pv
+            if not (d_[0] == "struct" and same(d_[2].get("path_value"), want) and same(d_[2].get("name"), field(ex, file_, df.index("name"), "String"))):
+                probs.append("the merged document is not stored under this document's own name")
+        elif not (mg and r is not None and r[0] == "enum" and r[1] == "Result"):
+            probs.append("a document is dropped")
+        bad.append(pc_term(p.pc) if probs else "false")
+    a.discharge("structured/merge-closure/wiring", ex, bad,
+                "--structured, one document: merged (if parameters were given) with a copy of the evaluator's own parameters and stored "
+                "under its own name; without parameters the document itself is stored; a document is dropped only when its merge fails",
+                witness=False)
+
+
 def merge_unwrap(a):
     """`--structured` path: the closure that merges the input parameters into every document must not unwrap a failing merge"""
     pat = r"reporters::validate::structured::<impl at guard/src/commands/reporters/validate/structured\.rs:\d+:\d+: \d+:\d+>::evaluate::\{closure#(\d+)\}"
@@ -1663,12 +1762,12 @@ def replay_fail_rule_listed(a):
 
 SITES = {
     "C06": [structured_report, structured_parse_closure, junit_exit_code, junit_test_case, junit_report, validate_execute_step, test_generic_report],
-    "C12": [structured_report, junit_test_case, data_input_wiring, test_get_by_result],
+    "C12": [structured_report, junit_test_case, data_input_wiring, data_input_params_wiring, structured_merge_closure, test_get_by_result],
     "C16": [test_generic_report, test_get_by_result, test_get_by_rules],
     "C09": [report_partition, report_rule_listing],
     "C15": [scope_resolution, param_rule_call, param_ctx_resolve],
     "C04": [rule_status_semantics],
     "C01": [rule_status_semantics],
-    "C17": [merge_map, merge_unwrap, param_files_fold_step],
+    "C17": [merge_map, merge_unwrap, param_files_fold_step, data_input_params_wiring, structured_merge_closure],
     "C08": [merge_unwrap],
 }
